@@ -249,6 +249,9 @@ def check_track_equality(track, ref, S, where=""):
     if r1 is not True or r2 is not True or r3 is not False:
         S.problem(where + "track == rebuilt identical track", True, (r1, r2, r3))
     variants = [("one extra bar", rebuild_track(ref, extra_bar=True, base=same))]
+    # one more bar that holds nothing: another track all the same (its length and what indexing yields differ)
+    with_empty = track_of(list(same.bars) + [Bar("C", (4, 4))])
+    variants.append(("one extra empty bar", with_empty))
     if ref.items():
         variants.append(("last entry missing", rebuild_track(ref, drop_last=True, base=same)))
         variants.append(("last entry rest<->note", rebuild_track(ref, swap_last="rest", base=same)))
